@@ -16,6 +16,9 @@ pub struct Cli {
     pub threads: usize,
     pub seed: i64,
     pub extra: Vec<String>,
+    pub trace_file: Option<String>,
+    pub seq_from: u64,
+    pub seq_to: u64,
 }
 
 pub fn parse_cli() -> Cli {
@@ -24,6 +27,9 @@ pub fn parse_cli() -> Cli {
     let mut replay = None;
     let mut threads = std::thread::available_parallelism().map(|n| n.get()).unwrap_or(8);
     let mut extra = Vec::new();
+    let mut trace_file = None;
+    let mut seq_from = 0u64;
+    let mut seq_to = u64::MAX;
     let mut it = std::env::args().skip(1);
     while let Some(a) = it.next() {
         match a.as_str() {
@@ -31,6 +37,9 @@ pub fn parse_cli() -> Cli {
             "--tier" => tier = it.next().expect("--tier needs a value"),
             "--replay" => replay = Some(it.next().expect("--replay needs a path")),
             "--threads" => threads = it.next().unwrap().parse().unwrap(),
+            "--seq-from" => seq_from = it.next().unwrap().parse().unwrap(),
+            "--seq-to" => seq_to = it.next().unwrap().parse().unwrap(),
+            "--trace-file" => trace_file = Some(it.next().expect("--trace-file needs a path")),
             _ => extra.push(a),
         }
     }
@@ -40,7 +49,10 @@ pub fn parse_cli() -> Cli {
         }
     }
     let seed = std::env::var("VERIF_SEED").ok().and_then(|s| s.parse().ok()).unwrap_or(0);
-    Cli { prop, tier, replay, threads, seed, extra }
+    if trace_file.is_some() {
+        threads = 1;
+    }
+    Cli { prop, tier, replay, threads, seed, extra, trace_file, seq_from, seq_to }
 }
 
 pub fn opts_for(cli: &Cli) -> Opts {
@@ -50,6 +62,9 @@ pub fn opts_for(cli: &Cli) -> Opts {
         threads: cli.threads,
         findings: Findings::load(&format!("{VERIF_DIR}/known_findings.json")),
         continue_after_violation: false,
+        trace_file: cli.trace_file.clone(),
+        seq_from: cli.seq_from,
+        seq_to: cli.seq_to,
     }
 }
 
